@@ -30,6 +30,7 @@ func init() {
 		// WebTransport frames: the kind and the bytes of an inbound message come from the framing layer
 		c13KindBit(c)               // C02.8a = C13.3: kind bit read as written
 		wtPeekValidity(c, "C02.8b") // header bytes used while still valid
+		headerBytesComplete(c, "C02.8e")
 		wtReadLimit(c, "C02.8c")    // per-message (not per-connection) size accounting: later messages are not refused
 		wtClampAndSkip(c, "C02.8d") // a message never contains bytes of the next frame
 	})
